@@ -13,6 +13,7 @@ import OvniModel.Emu.Basic
 import OvniModel.Lemmas.TaskHook
 import OvniModel.Lemmas.SysEmit
 import OvniModel.Lemmas.TaskCouple
+import OvniModel.Lemmas.TaskCoupleTotal
 import OvniModel.Lemmas.EmitZero
 
 /-!
@@ -39,7 +40,7 @@ transcribes `prv_register` / `emit` of `pv/prv.c` and the second loop of
 (section "The task layer"): `Emu/TaskHook.lean`, `emu_event_task`,
 `emu_history_task` — no hook hypothesis; section "The task layer's copy of the
 task channels IS the thread's channels": `Coupled`, `coupled_step`,
-`coupled_history`, `coupled_verdicts`, `emu_history_task_coupled`,
+`coupled_history`, `coupled_verdicts`, `task_hook_accepts_iff`, `emu_history_task_coupled`,
 `emu_run_task_driver`.  `PRV_ZERO` registrations: `emit_step_zero`.
 -/
 namespace Ovni.Props.C06
@@ -1597,6 +1598,22 @@ theorem coupled_verdicts {tm : Ovni.Task.Model} {k : Nat} {e : Emu} {ε : Ovni.T
     obtain ⟨c, h1, h2⟩ := hcp.single ti hti f hf
     exact ⟨c, h1, h2.cur, fun v => h2.set_iff v⟩
 
+/-- **In a coupled state the task hook accepts exactly what the task layer
+    accepts.**  For an event of the hook's thread: `taskHook` succeeds iff
+    `Ovni.Task.Emu.step` does (and the event is a task-state or creation event of
+    that thread) — no `chan_push` / `chan_pop` / `chan_set` on the thread's real
+    channels refuses what the copy accepted.  So along a history (`coupled_history`)
+    the verdict of the reference emulator on a task event IS the verdict of the
+    task layer (`Emu/Task.lean`, the model C07's check drives through `drv_task`). -/
+theorem task_hook_accepts_iff {tm : Ovni.Task.Model} {P : Ovni.Task.ProcInfo} {ε : Ovni.Task.Emu}
+    {ev : Ovni.Task.Ev} {e : Emu} {ti a k : Nat} {p : List Nat} (hs : Shaped e)
+    (hk : e.specs[k]? = some (specOf tm)) (hcp : Coupled tm k e ε) (hti : ti < e.threads.length) :
+    (∃ e1, hookOf tm P ε (some ev) e ti (specOf tm).char a p = .ok e1) ↔
+      ((∃ ε', Ovni.Task.Emu.step tm P ε ev = .ok ε') ∧
+        ((∃ t v bp, ev = .task ti v t bp) ∨ (∃ ty h f, ev = .typeCreate ty h f) ∨
+          (∃ par t ty, ev = .taskCreate par t ty))) :=
+  taskHook_accepts_iff (a := a) (p := p) hs hk hcp hti
+
 /-- **emu_history with the task layer, no separate-state caveat.**  For ANY
     history accepted by the reference emulator running the task hook and the mark
     hook, whose decoded events fit the raw ones, from a coupled state: the bay run
@@ -1859,9 +1876,11 @@ theorem emu_step_lines {e e2 : Emu} {b0 b : Bay} {ti mc c v : Nat} {p : List Nat
 --          the caller's; for NON-task events the decoded event is no longer free: it must be
 --          `ssEvOf` (computed from the generated table), which `Consistent` checks.
 --      (c) The hook still evaluates the rules on the copy and then writes the channels
---          (`taskHook`); a hook that reads the real channels only (no `ch` / `ss` fields) is
---          not defined — by `coupled_verdicts` its verdicts would be the same, the
---          equivalence of the two hooks as functions is not stated.
+--          (`taskHook`).  Proved: in a coupled state it accepts exactly what
+--          `Ovni.Task.Emu.step` accepts (`task_hook_accepts_iff`: the real channel operations
+--          never refuse what the copy accepted), so the copy is redundant for the verdict.  A
+--          hook WITHOUT the `ch` / `ss` fields (rules evaluated on the real channels only) is
+--          not defined.
 --      (d) The driver (`Drivers/Emu.lean`) still runs `noHook`: its line protocol carries
 --          neither app id / rank of the process nor the label hash, and the e2e generator of
 --          C04–C08 emits no task events; C07's check drives the task layer through
@@ -2430,6 +2449,17 @@ example : ¬ Consistent .nosv ((0, 86, 72, 119, []), none) ∧
         [((0, 79, 72, 120, [0, 0, 0, 0]), none), ((0, 86, 72, 119, []), none)] with
       | .ok (e, ε, _) => decide (ε.ss 0 = [] ∧ (e.src (.raw 0 1 4)).map (·.vals) = some [.int 28])
       | .error _ => false) = true := by decide
+
+/-- `task_hook_accepts_iff` at the initial state (`Shaped` from `emu_init`,
+    `Coupled` from `coupled_init`): the type-creation event is accepted by the
+    hook because the task layer accepts it. -/
+example : ∃ e1, hookOf .nosv ⟨1, -1⟩ Ovni.Task.Emu.init (some (.typeCreate 1 7 true)) exEmu 0 86 89 [] = .ok e1 := by
+  obtain ⟨hfl, hiv, _⟩ := driver_emit_conditions [79, 86] []
+  obtain ⟨hs, _⟩ := emu_init_emit _ _ _ _ _ exEmuBay_connect (by decide) exEmu_chars exEmu_initSingle hfl hiv
+  have hcp := coupled_init .nosv [(100, 10, 0), (101, 10, 0)] [(0, 0, false), (0, -1, true)] [79, 86] false []
+    (k := 1) (by rfl)
+  exact (task_hook_accepts_iff (tm := .nosv) (k := 1) hs (by rfl) hcp (by decide)).mpr
+    ⟨⟨_, rfl⟩, Or.inr (Or.inl ⟨1, 7, true, rfl⟩)⟩
 
 /-! ### `PRV_ZERO` registrations (`Lemmas/EmitZero.lean`)
 
